@@ -167,4 +167,85 @@ func runC47(c *Ctx) {
 	})
 	c.Check(usesNF, r3, rr.Name()+":unresolvable", rr.Decl.Pos(), "a name that resolves to nothing ends in ErrReferenceNotFound")
 	c.Floor(r3, 2)
+
+	// The store can only be asked for whole bytes, so for an odd number of digits the candidates match the prefix minus
+	// its last digit. They may be returned as they come only where the prefix is known to have an even length; on
+	// every other path each candidate has to be compared with the whole prefix.
+	const r4 = "last-digit-checked"
+	{
+		params := paramObjs(info, rp.Decl)
+		var raw types.Object
+		ast.Inspect(rp.Decl.Body, func(n ast.Node) bool {
+			as, ok := n.(*ast.AssignStmt)
+			if !ok || len(as.Lhs) != 1 || len(as.Rhs) != 1 {
+				return true
+			}
+			if call, ok := unparen(as.Rhs[0]).(*ast.CallExpr); ok {
+				if fn := Callee(info, call); fn != nil && fn.Name() == "expandPartialHash" {
+					raw = objOf(info, as.Lhs[0])
+				}
+			}
+			return true
+		})
+		isLenOfParam := func(e ast.Expr) bool {
+			call, ok := unparen(e).(*ast.CallExpr)
+			if !ok || len(call.Args) != 1 || len(params) == 0 || objOf(info, call.Args[0]) != types.Object(params[0]) {
+				return false
+			}
+			id, ok := unparen(call.Fun).(*ast.Ident)
+			return ok && id.Name == "len"
+		}
+		isLen := func(e ast.Expr) bool {
+			call, ok := unparen(e).(*ast.CallExpr)
+			if !ok || len(call.Args) != 1 {
+				return false
+			}
+			id, ok := unparen(call.Fun).(*ast.Ident)
+			return ok && id.Name == "len"
+		}
+		isZero := func(e ast.Expr) bool {
+			tv := info.Types[e]
+			return tv.Value != nil && constant.Sign(constant.ToInt(tv.Value)) == 0
+		}
+		evenKnown := FactGuard(func(f *Flow, fact Fact) bool {
+			be, ok := unparen(fact.Atom).(*ast.BinaryExpr)
+			if !ok {
+				return false
+			}
+			eq := (be.Op == token.EQL && fact.Truth) || (be.Op == token.NEQ && !fact.Truth)
+			if !eq {
+				return false
+			}
+			// len(evenPart) == len(prefix)
+			if (isLenOfParam(be.X) && isLen(be.Y)) || (isLenOfParam(be.Y) && isLen(be.X)) {
+				return true
+			}
+			// len(prefix)%2 == 0, len(prefix)&1 == 0
+			for _, pr := range [][2]ast.Expr{{be.X, be.Y}, {be.Y, be.X}} {
+				if m, ok := unparen(pr[0]).(*ast.BinaryExpr); ok && (m.Op == token.REM || m.Op == token.AND) && isLenOfParam(m.X) && isZero(pr[1]) {
+					return true
+				}
+			}
+			return false
+		})
+		if raw == nil || len(params) == 0 {
+			c.Hold(r4, rp.Name(), rp.Decl.Pos(), "not decided: no list received from expandPartialHash in this function")
+		} else {
+			f := c.P.FlowOf(rp)
+			n := 0
+			for _, loc := range f.Locs(func(nd ast.Node) bool {
+				r, ok := nd.(*ast.ReturnStmt)
+				return ok && len(r.Results) == 1 && objOf(info, r.Results[0]) == raw
+			}) {
+				n++
+				h := f.UnguardedPath(evenKnown, loc)
+				c.Check(h == nil, r4, rp.Name()+":return "+raw.Name()+ifStr(n > 1, "#"+itoa(n)), loc.B.Nodes[loc.Idx].Pos(), orStr(ifStr(h != nil, "the candidates found for the whole bytes of the prefix are returned on a path where the prefix may have an odd number of digits: its last digit is never compared, an abbreviation with a wrong last digit resolves to an object git does not find"),
+					"the unfiltered candidates are returned only where the prefix has an even number of digits"))
+			}
+			if n == 0 {
+				c.Hold(r4, rp.Name(), rp.Decl.Pos(), "the list received from expandPartialHash is never returned as it is")
+			}
+		}
+	}
+	c.Floor(r4, 1)
 }
